@@ -108,3 +108,78 @@ Example C11_released_state :
   match nth_error (calls s) 1 with Some k => k_pc k = PRet | None => False end /\
   In (EvUnaryRet 1 (UOk 9)) (log s).
 Proof. vm_compute. repeat split; try reflexivity. tauto. Qed.
+
+(* ====================== server side, closed-system form (builder sv; proofs in Proofs/ServerProbeC.v) ======================
+   Appended by sv (round 8); cw's theorems above are untouched. Model/Server.v, all label sequences. *)
+From Goat Require Proofs.ServerProofs Proofs.ServerInv Proofs.ServerLive Proofs.ServerRoute Proofs.ServerDispatch
+  Proofs.ServerServing Proofs.ServerTerm Proofs.ServerClosed Proofs.ServerProbeC.
+
+(* a reply handed back by a unary handler is on the wire wherever a LIVE connection is at rest with a transport that does
+   not block writes - NO hypothesis on the other handlers (C12_probe asks that all of them have returned) *)
+Theorem C11_server_reply_written : forall ls s, Server.lrun Server.init ls = Some s ->
+  Server.quiescent s = true -> Server.wblock s = false -> Server.hctx_done s = false ->
+  forall h f, In (Server.SvReply h f) (Server.log s) -> In (Server.SvWrite f) (Server.log s).
+Proof. exact (ServerProbeC.srv_reply_written Server.nworkers). Qed.
+Print Assumptions C11_server_reply_written.
+
+(* the probe completes. Any run in which only the peer and the handlers acted ([peer_only]: envelopes of any shape, any
+   handler operations - handlers that returned with unread messages, that never read, that are parked -, a transport
+   that blocks / unblocks writes), continued by the CLOSED system (internal rules and returns of handlers, [crun]; it
+   terminates: C10_closed_terminates, and reaches a final state: C10_closed_reaches_final) to a final state. If the read
+   loop is not kept there - the transport does not block writes, some worker is not running a handler, no stream handler
+   that has NOT returned sits on a full queue (the back-pressure of a live handler, finding D-07r / the hypothesis of
+   C11) - then: everything the peer sent has been read, every unary request has been handed to a worker and a handler was
+   started for exactly those that decode, and the reply of EVERY unary handler that has returned is on the wire. A
+   handler that RETURNED with unread messages does not keep the read loop (its envelope is dropped): it is not in the
+   hypothesis. *)
+Theorem C11_server_probe_completes : forall ls s, forallb ServerServing.peer_only ls = true -> Server.lrun Server.init ls = Some s ->
+  forall ls' s', ServerClosed.crun s ls' = Some s' -> ServerClosed.final s' = true ->
+    Server.wblock s' = false ->
+    (exists w p, nth_error (Server.wk s') w = Some p /\ forall h, p <> Server.WkRun h) ->
+    (forall h k, nth_error (Server.hs s') h = Some k -> Server.h_q k <> None -> Server.h_returned k = true) ->
+    Server.rd s' = Server.RdRead /\ Server.inbox s' = []
+    /\ ServerRoute.ureads (Server.log s') = ServerRoute.jobs (Server.log s')
+    /\ ServerDispatch.ureqs s' = filter ServerDispatch.unary_ok (ServerRoute.ureads (Server.log s'))
+    /\ (forall h f, In (Server.SvReply h f) (Server.log s') -> In (Server.SvWrite f) (Server.log s')).
+Proof.
+  intros ls s Hp H ls' s' Hr F B W Q.
+  apply (ServerProbeC.srv_probe_completes Server.nworkers ls s ltac:(unfold Server.nworkers; auto with arith) Hp H ls' s' Hr F).
+  unfold ServerClosed.rd_not_kept. auto.
+Qed.
+Print Assumptions C11_server_probe_completes.
+
+(* non-vacuity: a stream whose handler never reads gets three messages (one queued, the read loop parks on the second),
+   the handler returns with them unread; then the probe: its handler returns 77. The closed system runs on to a final
+   state: everything read, the probe's reply written. Before the handler returned the read loop WAS kept (C11_server_held_ex; theorem C11_server_held above). *)
+Definition sv_frame (id : Z) (k : Server.mkind) (b : option Z) : Server.frame :=
+  Server.mkFrame (mkEnv id (Some (MdOk 0)) None b None false) k 2 1.
+Definition sv_state (acts : list Server.act) : Server.state :=
+  match Server.lrun Server.init (ServerLive.labels_of acts) with Some s => s | None => Server.init end.
+Definition sv_closed_end (s : Server.state) : Server.state :=
+  match ServerClosed.crun s (ServerClosed.closed_labels 200 s) with Some s' => s' | None => s end.
+Definition sv_held : list Server.act :=
+  [ Server.ADeliver (sv_frame 1 (Server.MStream 3) None);
+    Server.ADeliver (sv_frame 1 (Server.MStream 3) (Some 21)); Server.ADeliver (sv_frame 1 (Server.MStream 3) (Some 22));
+    Server.ADeliver (sv_frame 1 (Server.MStream 3) (Some 23)); Server.ADeliver (sv_frame 9 (Server.MUnary 1) (Some 5)) ].
+Definition sv_probe_acts : list Server.act :=
+  sv_held ++ [ Server.AHandlerStep 0 (Server.HReturn None Server.HNil); Server.AHandlerStep 1 (Server.HReturn (Some 77) Server.HNil) ].
+
+Example C11_server_held_ex :
+  exists s, Server.lrun Server.init (ServerLive.labels_of sv_held) = Some s /\ Server.quiescent s = true
+    /\ (exists f, Server.rd s = Server.RdFwd 0 f) /\ length (Server.inbox s) = 2%nat /\ length (Server.hs s) = 1%nat.
+Proof. exists (sv_state sv_held). vm_compute. repeat split. eexists; reflexivity. Qed.
+
+Example C11_server_probe_ex :
+  exists s ls' s', Server.lrun Server.init (ServerLive.labels_of sv_probe_acts) = Some s
+    /\ forallb ServerServing.peer_only (ServerLive.labels_of sv_probe_acts) = true
+    /\ ls' = ServerClosed.closed_labels 200 s /\ ServerClosed.crun s ls' = Some s' /\ ServerClosed.final s' = true
+    /\ Server.wblock s' = false /\ Server.rd s' = Server.RdRead /\ Server.inbox s' = []
+    /\ forallb (fun k => match Server.h_q k with None => true | Some _ => Server.h_returned k end) (Server.hs s') = true
+    /\ nth_error (Server.wk s') 0 = Some Server.WkIdle
+    /\ length (filter (fun e => match e with Server.SvReply _ _ => true | _ => false end) (Server.log s')) = 1%nat
+    /\ length (filter (fun e => match e with Server.SvDrop _ _ => true | _ => false end) (Server.log s')) = 2%nat
+    /\ existsb (fun e => match e with Server.SvWrite f => match ebody (Server.f_env f) with Some 77 => true | _ => false end | _ => false end) (Server.log s') = true.
+Proof.
+  exists (sv_state sv_probe_acts), (ServerClosed.closed_labels 200 (sv_state sv_probe_acts)), (sv_closed_end (sv_state sv_probe_acts)).
+  vm_compute. repeat split.
+Qed.
